@@ -267,7 +267,7 @@ def replay_lattice(chk, lattice, pool, rnd, nproc):
     second = chosen if thorough else rnd.sample(chosen, len(chosen) // 10)
     jobs += [(c[::-1], False) for c in [second[i::nproc * 2] for i in range(nproc * 2)] if c]
     ncalls = 0
-    for bad, n in pool.imap_unordered(_pairs_worker, jobs):
+    for bad, n in timed(pool.imap_unordered(_pairs_worker, jobs), len(jobs), 300, "neighbours of 7-smooth numbers"):
         ncalls += n
         for key, fn, N, e, got, t in bad:
             _call_violation(chk, key, fn, N, e, got, "neighbour of a 7-smooth number", t)
@@ -299,12 +299,25 @@ def trace_inputs(lattice, rnd, n):
     return out[:n]
 
 
+class Hang(Exception):
+    pass
+
+
+def timed(it, count, secs, what):
+    """results of a pool iterator; a worker that does not come back within `secs` is a non-terminating search"""
+    for _ in range(count):
+        try:
+            yield it.next(timeout=secs)
+        except mp.TimeoutError:
+            raise Hang(what)
+
+
 def run_trace(chk, lattice, pool, rnd, nproc, lattice_file):
     import trace_util
     n = 20000 if chk.tier == "thorough" else 1500
     ns = trace_inputs(lattice, rnd, n)
     res = []
-    for part in pool.imap(_calls_worker, [ns[i::nproc] for i in range(nproc)]):
+    for part in timed(pool.imap(_calls_worker, [ns[i::nproc] for i in range(nproc)]), nproc, 300, "sampled N of the trace"):
         res += part
     events = []
     for i, (N, a, b, err) in enumerate(res):
@@ -567,6 +580,9 @@ def run(chk):
             replay_exhaustive(chk, recs, rnd)
         if os.path.exists(out):
             os.remove(out)
+    except Hang as h:
+        chk.violation("termination", "next_fast_len / prev_fast_len did not return within 300 s on %s" % h,
+                      {"kind": "hang", "what": str(h)})
     finally:
         pool.terminate()
         spool.terminate()
